@@ -126,6 +126,7 @@ theorem v1_writeChar (c : Ctx) (s : Str) (q : Bool) : V1Ok c (writeChar c s q tr
   intro hc
   refine ⟨?_, fun e he => ?_⟩
   · intro o c' h
+    have h := (Lemmas.WriterChar.writeChar_ok c s q true (o, c') h).2
     have hv : ¬(c.isCif1 = true ∧ validate11 s = false) := by
       intro hv; rw [Lemmas.WriterChar.writeChar_invalid c s q true hv] at h; cases h
     have hvs : validate11 s = true := by
@@ -219,8 +220,9 @@ theorem v1_writeChar (c : Ctx) (s : Str) (q : Bool) : V1Ok c (writeChar c s q tr
       rw [← hcf, hlen, hrec]; rfl
   · have hcf : (!c.isCif1) = false := by simp [hc]
     have := C13_refusal_codes c s q true e hc he
-    rcases this with h | h
+    rcases this with h | h | h
     · left; exact h.1
+    · right; exact h.1
     · right; exact h.1
 
 theorem v1_literal_wrap (c : Ctx) (t : Str) (ht : validate11 t = true) : V1Ok c (literalOrError c t true) := by
@@ -281,10 +283,10 @@ theorem v1_writeNumb (c : Ctx) (t : Str) (q : Bool) (ht : t ≠ [] ∧ validate1
       have hpos := Lemmas.WriterTotal.countChar32_pos t ht.1
       unfold writeULiteral at hr
       simp only at hr
-      have hn0 : ¬ countChar32 t = 0 := by omega
+      have hn0 : ¬ Writer.countChar32 t = 0 := by omega
       rw [if_neg hn0] at hr
       have hpl : (printfS t.length t) = t := by simp [printfS]
-      by_cases h1 : countChar32 t + c.lastColumn > LINE
+      by_cases h1 : Writer.countChar32 t + c.lastColumn > LINE
       · rw [if_pos h1, if_pos trivial] at hr; cases hr; rfl
       · rw [if_neg h1] at hr; cases hr; rw [hpl]
         cases t with
@@ -309,12 +311,12 @@ theorem v1_writeItemHead (c : Ctx) (n : Str) (hn : nameOk n) : V1Ok c (writeItem
           · exact absurd ⟨hc, hh⟩ hv
           · rfl
         -- the name is printed at the beginning of a line
-        have hpos : ¬ countChar32 n = 0 := by
+        have hpos : ¬ Writer.countChar32 n = 0 := by
           have h1 := hn.1
           have := Lemmas.WriterTotal.countChar32_pos n (by intro e; rw [e] at h1; simp at h1)
           omega
         have hpl : (printfS n.length n) = n := by simp [printfS]
-        have hfit : ¬ countChar32 n > LINE := by have := hn.2; omega
+        have hfit : ¬ Writer.countChar32 n > LINE := by have := hn.2; omega
         have hlen2 : ¬ n.length < 2 := by have := hn.1; omega
         have hw2 : ∀ c1 : Ctx, c1.lastColumn = 0 →
             writeULiteral c1 n none false = some (n, { c1 with lastColumn := c1.lastColumn + n.length }) := by
